@@ -500,7 +500,7 @@ Proof. induction l as [|[k v] r IH]; [reflexivity|]. cbn [map flat_map serialize
 Lemma render_toks_app a b : render_toks (a ++ b) = render_toks a ++ render_toks b.
 Proof. unfold render_toks. apply flat_map_app. Qed.
 
-Lemma serialize_tag_toks kids_out kids q ta data (kt : list token) :
+Lemma serialize_tag_toks kids_out (kids : list node) q ta data (kt : list token) :
   data = map render_attr_data ta -> kids_out = render_toks kt ->
   serialize_tag kids_out (negb (null kids)) q data
   = render_toks (if null kids then [TStart q ta true] else TStart q ta false :: kt ++ [TEnd q]).
@@ -508,7 +508,7 @@ Proof.
   intros -> ->. unfold serialize_tag. rewrite serialize_attributes_eq. destruct kids as [|k0 r]; cbn [null negb].
   - cbn [render_toks flat_map render_tok]. rewrite app_nil_r. reflexivity.
   - cbn [render_toks flat_map]. fold (render_toks (kt ++ [TEnd q])). rewrite render_toks_app.
-    cbn [render_toks flat_map render_tok]. rewrite app_nil_r. rewrite <- !app_assoc. reflexivity.
+    cbn [render_toks flat_map render_tok]. rewrite app_nil_r. cbn [app]. repeat rewrite <- app_assoc. cbn [app]. reflexivity.
 Qed.
 
 Lemma render_node_toks e pm n : resolves e pm n -> render_node pm n = render_toks (toks_node pm n).
@@ -522,9 +522,10 @@ Proof.
       inversion IHk as [|? ? Hk Hr]; subst. inversion HK as [|? ? Rk Rr]; subst.
       cbn [toks_kids flat_map]. fold (toks_kids pm r). rewrite render_toks_app. rewrite (Hk Rk). f_equal.
       apply IHr; assumption.
-  - cbn. rewrite app_nil_r. reflexivity.
-  - cbn. rewrite app_nil_r. unfold COMMENT_OPEN. reflexivity.
-  - cbn. rewrite app_nil_r. unfold PI_OPEN, PI_CLOSE. cbn [app]. rewrite <- !app_assoc. reflexivity.
+  - cbn [render_node toks_node render_toks flat_map render_tok]. rewrite app_nil_r. reflexivity.
+  - cbn [render_node toks_node render_toks flat_map render_tok]. rewrite app_nil_r. unfold COMMENT_OPEN. reflexivity.
+  - cbn [render_node toks_node render_toks flat_map render_tok]. rewrite app_nil_r. unfold PI_OPEN, PI_CLOSE.
+    cbn [app]. repeat rewrite <- app_assoc. reflexivity.
 Qed.
 Lemma render_kids_toks e pm kids : all_resolve e pm kids -> render_kids pm kids = render_toks (toks_kids pm kids).
 Proof.
